@@ -74,7 +74,16 @@ pub fn judge_raw(input: &[u8], acc: &mut Acc) {
     }
 }
 
-const ELEMS: [(&str, fn() -> KP); 15] = [
+const ELEMS: [(&str, fn() -> KP); 24] = [
+    ("007", || KP::Index(7)),
+    ("00000000007", || KP::Index(7)),
+    ("-00000000000", || KP::Index(0)),
+    ("+5", || KP::Index(5)),
+    ("\"e\u{301}\"", || KP::QuotedName("e\u{301}".into())),
+    ("\"\u{ad}x\"", || KP::QuotedName("\u{ad}x".into())),
+    ("\"\u{200b}\"", || KP::QuotedName("\u{200b}".into())),
+    ("\"\u{fe0f}\u{e000}\"", || KP::QuotedName("\u{fe0f}\u{e000}".into())),
+    ("e\u{301}", || KP::Name("e\u{301}".into())),
     ("0", || KP::Index(0)),
     ("1", || KP::Index(1)),
     ("-1", || KP::Index(-1)),
